@@ -102,7 +102,13 @@ def build(stack):
     from werkzeug.wrappers import Response
     from werkzeug.utils import redirect
 
-    def ep_resp(request):
+    UNSET = object()
+
+    def ep_resp(request, page=UNSET, q=UNSET):
+        # what GetParamMiddleware hands over must be what its documentation says: the query parameter, converted
+        for name, got, typ in (('page', page, int), ('q', q, str)):
+            if got is not UNSET and got != request.args.get(name, None, typ):
+                return Response(('extracted %s=%r, the query string says %r' % (name, got, request.args.get(name, None, typ))).encode('utf-8'))
         b = request.args.get('b', 'kb')
         ct = 'application/octet-stream' if b in ('binary', 'rand') else 'text/plain; charset=utf-8'
         return Response(body_bytes(b), content_type=ct)
@@ -146,7 +152,11 @@ def build(stack):
     def boom():
         raise ValueError('boom')
 
-    def posted(request):
+    def posted(request, p=UNSET, n=UNSET):
+        # what PostDataMiddleware hands over must be the form field of that name, converted - nothing else
+        for name, got, typ in (('p', p, str), ('n', n, int)):
+            if got is not UNSET and got != request.form.get(name, None, typ):
+                return Response(('extracted %s=%r, the form says %r' % (name, got, request.form.get(name, None, typ))).encode('utf-8'))
         return Response(('posted:%s:%s' % (request.form.get('p'), request.form.get('n'))).encode('utf-8'))
     routes = [('/resp', ep_resp), ('/ctx', ep_ctx, render), ('/stream', ep_stream), ('/deflated', ep_deflated), ('/redir', ep_redir),
               ('/branch/', ep_resp),
@@ -174,6 +184,10 @@ def request_catalogue():
     out.append(('unknown', '/zz/top', 'GET', '', b''))
     out.append(('wrong-method', '/post', 'GET', '', b''))
     out.append(('post', '/post', 'POST', '', b'p=1&n=abc'))
+    out.append(('post-num', '/post', 'POST', '', b'p=&n=12'))
+    # the URL carries parameters named like the form fields
+    out.append(('post-query-clash', '/post', 'POST', 'p=from-url&n=7', b'p=1&n=abc'))
+    out.append(('post-query-only', '/post', 'POST', 'p=from-url&n=7', b''))
     return out
 
 
